@@ -19,11 +19,14 @@ OVERLAY = {
     # the forced-schedule controller: a file ADDED to package executors (shared with the sqlx executor)
     "core/executors/verif_c11_ctl.go": os.path.join(OV, "executors", "verif_c11_ctl.go"),
     "core/executors/verif_c11_free_test.go": os.path.join(OV, "executors", "verif_c11_free_test.go"),
+    # custom TaskContainers whose batches are of every reflect kind hasTasks distinguishes (kind "agg")
+    "core/executors/verif_c11_agg.go": os.path.join(OV, "executors", "verif_c11_agg.go"),
     # the shared virtual clock plus a hook at the start of Since (= the executor's shallQuit)
     "core/timex/relativetime.go": os.path.join(OV, "executors", "relativetime_c11.go"),
 }
 SQLX_OVERLAY = {
     "core/executors/verif_c11_ctl.go": OVERLAY["core/executors/verif_c11_ctl.go"],
+    "core/executors/verif_c11_agg.go": OVERLAY["core/executors/verif_c11_agg.go"],
     "core/timex/relativetime.go": OVERLAY["core/timex/relativetime.go"],
     "core/stores/sqlx/verif_c11_sqlx_test.go": os.path.join(OV, "sqlx", "verif_c11_sqlx_test.go"),
 }
@@ -36,6 +39,39 @@ CONSTS = {"idleRound": ("core/executors/periodicalexecutor.go", r"^\s*const\s+id
 
 
 DUR = {"time.Nanosecond": 1, "time.Microsecond": 10**3, "time.Millisecond": 10**6, "time.Second": 10**9, "time.Minute": 60 * 10**9}
+
+
+# kind "agg": a bare PeriodicalExecutor over a custom container (harness/overlay/executors/verif_c11_agg.go,
+# coq/theories/C11/Containers.v): the Go type of a batch x what RemoveAll returns when nothing was added
+SHAPES = {"slice": "SSlice", "map": "SMap", "chan": "SChan", "array": "SArray", "struct": "SStruct", "int": "SInt",
+          "string": "SString", "bool": "SBool", "ptr": "SPtr", "iface": "SIface"}
+EMPTIES = {"nil": "ENil", "zero": "EZero", "mark": "EMark"}
+# shapes whose batch [0] is the zero value of an unknown kind (what hasTasks must still execute)
+ZERO_SHAPES = ("struct", "iface", "int", "string", "bool", "ptr")
+ONE_TASK_SHAPES = ("int", "bool")
+RKINDS = {"nil": "KNil", "array": "KArray", "chan": "KChan", "map": "KMap", "slice": "KSlice", "struct": "KStruct",
+          "int": "KInt", "string": "KString", "bool": "KBool", "ptr": "KPtr", "other": "KOther"}
+
+
+def container_of(inst):
+    """(ckind, cempty) of an instance: Containers.shape_of"""
+    k = inst["kind"]
+    if k == "agg":
+        return SHAPES[inst["shape"]], EMPTIES[inst["empty"]]
+    if k == "bag":
+        return "SBag", "ENil"
+    return "SSlice", "EZero"       # bulk, chunk, periodical, sqlx: a slice, nil when nothing was added
+
+
+def agg(shape, empty, maxw, ncl, ops, **kw):
+    c = single("agg", maxw, ncl, ops, **kw)
+    c["insts"][0]["shape"] = shape
+    c["insts"][0]["empty"] = empty
+    return c
+
+
+def accepts_zero_task(inst):
+    return inst["kind"] == "agg" and not (inst["empty"] == "zero" and inst["shape"] in ZERO_SHAPES)
 
 
 def read_consts():
@@ -204,7 +240,7 @@ def zl(l):
             rs.append([t, 1])
     if 2 * len(rs) > len(l):
         return clist([cz(t) for t in l])
-    return "(runs %s)" % clist(["(%s, %d%%nat)" % (cz(a), n) for a, n in rs])
+    return "(zruns %s)" % clist(["(%s, %d%%nat)" % (cz(a), n) for a, n in rs])
 
 
 def has_sqlx(case):
@@ -276,8 +312,36 @@ class C11(Property):
         return ["C11Consts: idleRound=%d maxBulkRows=%d flushInterval=%dns" % (vals["idleRound"], vals["maxBulkRows"], vals["flushInterval"])]
 
     # ---- cases -------------------------------------------------------------------
-    def corpus(self):
+    def agg_corpus(self):
+        """custom containers (kind agg), deterministic: every batch type x every path (Wait, Flush, threshold
+        hand-over, periodic flush) with the batch that holds only task 0 - the ZERO VALUE of the struct / string /
+        pointer / number / flag types (seeded change C11-9: hasTasks' default branch answers !IsZero)"""
         cs = []
+        for sh in ("struct", "iface", "string", "ptr"):
+            for em in ("mark", "nil"):
+                cs.append(agg(sh, em, 100, 2, [["add", 0, 0, 0], ["wait", 1], ["rel", 0]]))
+                cs.append(agg(sh, em, 100, 2, [["add", 0, 0, 0], ["flush", 1], ["rel", 0], ["add", 0, 1, 0], ["flush", 1], ["rel", 0]]))
+                cs.append(agg(sh, em, 1, 2, [["add", 0, 0, 1], ["rel", 0], ["add", 1, 1, 1], ["rel", 0]]))
+                cs.append(agg(sh, em, 100, 2, [["add", 0, 0, 0], ["tick"], ["rel", 0], ["tick"], ["add", 0, 1, 0], ["tick"], ["rel", 0]]))
+            # "nothing added" is the zero value itself: idle ticks execute the idle aggregate (Flush answers true)
+            cs.append(agg(sh, "zero", 3, 2, [["add", 0, 1, 1], ["tick"], ["rel", 0], ["tick"], ["tick"], ["add", 1, 2, 1], ["add", 0, 3, 2],
+                                             ["rel", 0], ["flush", 1], ["wait", 0]]))
+            # task 0 together with others: not a zero value
+            cs.append(agg(sh, "mark", 3, 3, [["add", 0, 2, 1], ["add", 1, 0, 1], ["flush", 2], ["add", 0, 3, 1], ["rel", 0], ["add", 1, 4, 1],
+                                             ["add", 1, 5, 1], ["wait", 2], ["rel", 0], ["rel", 0]]))
+        for sh in ONE_TASK_SHAPES:
+            for em in (("nil", "mark") if sh == "int" else ("nil",)):
+                for mw in (1, 0):
+                    cs.append(agg(sh, em, mw, 2, [["add", 0, 0, 1], ["rel", 0], ["add", 1, 1, 1], ["flush", 0], ["rel", 0], ["tick"], ["wait", 1]]))
+            cs.append(agg(sh, "zero", 1, 2, [["add", 0, 1, 1], ["tick"], ["rel", 0], ["tick"], ["wait", 1]]))
+        for sh in ("slice", "map", "chan", "array"):
+            for em in ("nil", "zero", "mark"):
+                cs.append(agg(sh, em, 3, 3, [["add", 0, 0, 0], ["flush", 1], ["rel", 0], ["tick"], ["add", 0, 2, 1], ["add", 1, 3, 1], ["tick"],
+                                             ["add", 2, 4, 1], ["rel", 0], ["add", 0, 5, 3], ["wait", 1], ["rel", 0], ["rel", 0]]))
+        return cs
+
+    def corpus(self):
+        cs = self.agg_corpus()
         # F6 (fixed; regression): Add a,b -> flusher parked in callback; Add t1 returns; Add t2 blocks holding [t1,t2]; Wait; release
         for kind in ("bulk", "chunk", "periodical", "bag"):
             cs.append(single(kind, 2, 3, [["add", 0, 1, 1], ["add", 0, 2, 1], ["add", 0, 3, 1], ["add", 1, 4, 1],
@@ -385,7 +449,7 @@ class C11(Property):
         n_inst = len(insts)
 
         def weight(inst, lo=False):
-            if inst["kind"] == "bulk":
+            if inst["kind"] == "bulk" or inst.get("shape") in ONE_TASK_SHAPES:
                 return 1
             return rng.choice([0, 1, 2, 4] if lo else [0, 1, 1, 2, 3, 4])
 
@@ -432,7 +496,8 @@ class C11(Property):
                         if r2 < 0.62:
                             w = weight(inst, True)
                             if rng.random() < 0.4:      # make this Add reach the threshold
-                                w = 1 if inst["kind"] == "bulk" else max(1, inst["maxw"] - acc)
+                                one = inst["kind"] == "bulk" or inst.get("shape") in ONE_TASK_SHAPES
+                                w = 1 if one else max(1, inst["maxw"] - acc)
                             acc += w
                             ops.append(["add", i, c2, nid, w])
                             nid += 1
@@ -451,6 +516,12 @@ class C11(Property):
                 ops.append(["sgo"])
         if shutdown and not any(o[0] == "shutdown" for o in ops):
             ops.insert(rng.randrange(len(ops) + 1), ["shutdown"])
+        # task 0 (payload 0): the batch that holds nothing else is the zero value of the aggregating batch types
+        zs = [i for i, inst in enumerate(insts) if accepts_zero_task(inst)]
+        if zs and rng.random() < 0.75:
+            i = rng.choice(zs)
+            w = 1 if insts[i].get("shape") in ONE_TASK_SHAPES else rng.choice([0, 0, 1, insts[i]["maxw"]])
+            ops.insert(rng.randrange(min(len(ops), 12) + 1), ["add", i, rng.randrange(insts[i]["nclients"]), 0, max(0, w)])
         return ops, nid
 
     def _gen_sqlx(self, rng):
@@ -494,12 +565,18 @@ class C11(Property):
             ninst = 1 if r < 0.62 else (2 if r < 0.9 else 3)
             insts = []
             for _i in range(ninst):
-                kind = rng.choice(["bulk", "bulk", "bulk", "chunk", "chunk", "periodical", "bag"])
+                kind = rng.choice(["bulk", "bulk", "bulk", "chunk", "chunk", "periodical", "bag", "agg", "agg"])
                 maxw = rng.choice([1, 2, 2, 3, 4]) if kind == "bulk" else rng.choice([1, 2, 3, 4, 5, 8])
                 if rng.random() < 0.04:
                     maxw = rng.choice([0, -1])      # threshold 0 / negative: every Add reaches it
                 ncl = rng.choice([2, 3, 3, 4]) if ninst == 1 else rng.choice([2, 2, 3])
-                insts.append({"kind": kind, "maxw": maxw, "interval": rng.choice([1000, 1000, 500]), "nclients": ncl})
+                inst = {"kind": kind, "maxw": maxw, "interval": rng.choice([1000, 1000, 500]), "nclients": ncl}
+                if kind == "agg":
+                    inst["shape"] = rng.choice(sorted(SHAPES))
+                    inst["empty"] = rng.choice(["nil", "zero", "mark"] if inst["shape"] != "bool" else ["nil", "zero"])
+                    if inst["shape"] in ONE_TASK_SHAPES:
+                        inst["maxw"] = rng.choice([1, 1, 0])
+                insts.append(inst)
             long_lived = ninst == 1 and rng.random() < 0.12
             nops = rng.randint(40, 70) if long_lived else (rng.randint(6, 28) if ninst == 1 else rng.randint(10, 30))
             hold = rng.random() < 0.2   # keep callbacks parked for long: hand-overs pile up
@@ -572,7 +649,7 @@ class C11(Property):
         res = self._exec_once(send, "c11", free_env)
 
         def to_obs(r):
-            return {"steps": r.get("steps") or [], "err": r.get("err", ""),
+            return {"steps": r.get("steps") or [], "err": r.get("err", ""), "removed": r.get("removed") or [],
                     "shut_started": bool(r.get("shut_started")), "shut_done": bool(r.get("shut_done"))}
 
         obs = [to_obs(res[k]) for k in range(len(cases))]
@@ -644,10 +721,16 @@ class C11(Property):
         for inst, steps in inst_logs(case, obs):
             st = clist(["(%s, %s)" % (self._act(a), self._obs(o)) for a, o in steps])
             # an executor error (no quiescence, shutdown stuck) is a failing history
-            parts.append("mkCase %s %s %s %s %s %s %s %d%%nat %s" % (
+            ck, ce = container_of(inst)
+            idx = len(parts)
+            rem = (obs.get("removed") or [])
+            rem = rem[idx] if idx < len(rem) and rem[idx] else []
+            rm = clist(["(%s, mkBV %s %s %s)" % (zl(r.get("ids") or []), RKINDS.get(r["kind"], "KOther"), cz(r["len"]),
+                                                 cbool(r["zero"])) for r in rem])
+            parts.append("mkCase %s %s %s %s %s %s %s %d%%nat %s %s %s %s" % (
                 cz(inst["maxw"]), cz(inst["interval"]), clist([cz(b) for b in case["bad"]]),
                 cbool(bool(case.get("drain", True))), cbool(err), cbool(bool(case.get("gateq"))),
-                cbool(bool(case.get("gates"))), inst["nclients"], st))
+                cbool(bool(case.get("gates"))), inst["nclients"], ck, ce, rm, st))
         return clist(parts)
 
     # ---- classification ----------------------------------------------------------
